@@ -86,6 +86,24 @@ def envProxy (secure : Bool) (env : Env) : Str :=
 def useProxy (host : Str) (secure : Bool) (optHost : Str) (optNoProxy : List Str) (env : Env) : Bool :=
   (optHost ≠ [] || envProxy secure env ≠ []) && !exempt host (noProxyList optNoProxy env)
 
+/-- the documented decision, case by case: exempt ⇒ direct; a proxy host option ⇒ that proxy
+    (port 0 with it is a configuration error, reported as a proxy error); else the scheme's
+    environment variable, when set and non-blank, names the proxy as a URL; else direct. -/
+inductive Decision where
+  | direct
+  | viaOption (host : Str) (port : Nat) (auth : Option (Str × Str))
+  | viaEnv (url : Str)
+  | configError
+  deriving DecidableEq, Repr
+
+def decision (host : Str) (secure : Bool) (optHost : Str) (optPort : Nat) (optAuth : Option (Str × Str))
+    (optNoProxy : List Str) (env : Env) : Decision :=
+  if exempt host (noProxyList optNoProxy env) then .direct
+  else if optHost ≠ [] then
+    if optPort = 0 then .configError else .viaOption optHost optPort optAuth
+  else if envProxy secure env ≠ [] then .viaEnv (envProxy secure env)
+  else .direct
+
 /-! ### the CONNECT request, read back
 
   `CONNECT h:p HTTP/1.1 CRLF Host: h:p CRLF [Proxy-Authorization: Basic b64 CRLF] CRLF` -/
